@@ -7,6 +7,8 @@
 import Driver.Tensor
 import Driver.OpsDwt
 import Driver.OpsDtcwt
+import Driver.OpsScat
+import Driver.OpsCache
 namespace WV
 
 def runLine (α : Type) [Scalar α] (op : String) (ps : List Int) (rest : List String) : String :=
@@ -16,7 +18,11 @@ def runLine (α : Type) [Scalar α] (op : String) (ps : List Int) (rest : List S
     match runDwt op ps ts with
     | .bad =>
       (match runDtcwt op ps ts with
-       | .bad => s!"bad op {op}"
+       | .bad =>
+         (match runScat op ps ts with
+          | .bad => s!"bad op {op}"
+          | .raise => "raise"
+          | .ok outs => "ok" ++ String.join (outs.map fun o => " | " ++ (match o with | none => "none" | some t => renderT t)))
        | .raise => "raise"
        | .ok outs => "ok" ++ String.join (outs.map fun o => " | " ++ (match o with | none => "none" | some t => renderT t)))
     | .raise => "raise"
@@ -31,7 +37,18 @@ def step (line : String) : String :=
     match ps.mapM (·.toInt?) with
     | none => "bad params"
     | some psI =>
-      if k = "Z" then runLine Int op psI parts.tail
+      if k = "Z" ∧ op = "cache_trace" then
+        (match parts.tail.mapM (parseT (α := Int)) with
+         | none => "bad tensor"
+         | some ts => match runCache op psI ts with
+           | .ok outs => "ok" ++ String.join (outs.map fun o => " | " ++ (match o with | none => "none" | some t => renderT t))
+           | _ => "bad op cache")
+      else if k = "Z" ∧ op = "dtype_path" then
+        (match runDtype op psI with
+         | .ok outs => "ok" ++ String.join (outs.map fun o => " | " ++ (match o with | none => "none" | some t => renderT t))
+         | .raise => "raise"
+         | .bad => "bad op dtype")
+      else if k = "Z" then runLine Int op psI parts.tail
       else if k = "Q" then runLine Q2 op psI parts.tail
       else if k = "F" then runLine Float op psI parts.tail
       else "bad kind"
